@@ -420,5 +420,10 @@ example : formatTimeUnitsCurrent gregorian pg "days since 1990-01-01".toList
 example : timeCoordinate .generic [⟨"a", none, true⟩, ⟨"time", some "days since 1990-01-01".toList, true⟩]
     = some "time" := by decide
 example : timeCoordinate .shocStandard [⟨"time", some "days since 1990-01-01".toList, true⟩] = none := by decide
+/-- observation: a SHOC simple dataset with a `time` dimension but no `time` variable -/
+example : timeCoordinate .shocSimple [⟨"temp", none, false⟩] = none
+    ∧ timeCoordinateCurrent .shocSimple ["time", "j", "i"] [⟨"temp", none, false⟩] = some "time"
+    ∧ saveTimeVariable (timeCoordinateCurrent .shocSimple ["time", "j", "i"] [⟨"temp", none, false⟩]) [⟨"temp", none, false⟩]
+        = some none := by decide
 
 end Ems.C17
